@@ -230,18 +230,19 @@ Proof. exact leaf_is_kernel. Qed.
 Print Assumptions C16_leaf_is_kernel.
 
 (* re-entrancy: whatever bridged calls run while the arguments of a call are
-   being converted, that call reaches Go after them and with exactly its own
-   argument values (in the model; the correspondence run checks otto against it) *)
-Theorem C16_reentrant_args_intact : forall f fn args,
-  exists before, ev_call (S f) (RCall fn args) = before ++ [(fn, map rarg_val args)].
+   being converted, a call that completes reaches Go after them and with exactly
+   its own argument values (in the model; the correspondence run checks otto against it) *)
+Theorem C16_reentrant_args_intact : forall f fn args l,
+  ev_call (S f) (RCall fn args) = (l, true) ->
+  exists before, l = before ++ [(fn, map rarg_val args)].
 Proof. exact reentrant_args_intact. Qed.
 Print Assumptions C16_reentrant_args_intact.
 
-Theorem C16_reentrant_inner_first : forall f fn pre inner v post,
-  exists a b, ev_call (S f) (RCall fn (pre ++ RRe inner v :: post)) =
-              a ++ flat_map (ev_call f) inner ++ b ++ [(fn, map rarg_val (pre ++ RRe inner v :: post))].
-Proof. exact reentrant_inner_first. Qed.
-Print Assumptions C16_reentrant_inner_first.
+(* an argument whose conversion fails aborts the call: Go never receives it *)
+Theorem C16_reentrant_failure_aborts : forall f fn inner post,
+  ev_call (S f) (RCall fn (RReFail inner :: post)) = (fst (ev_seq (ev_call f) inner), false).
+Proof. exact reentrant_failure_aborts. Qed.
+Print Assumptions C16_reentrant_failure_aborts.
 
 (* call arguments alias too: a struct held by value inside a pointer-bridged
    struct, passed to a pointer parameter, is the live struct (the callee's
@@ -341,16 +342,20 @@ Theorem C16_method_name_write_dropped_refuted :
 Proof. exact method_name_write_dropped_refuted. Qed.
 Print Assumptions C16_method_name_write_dropped_refuted.
 
-(* a single function given for a variadic slot of func type arrives as a nil func
-   (the tail-as-one-argument rule meets "anything with a length is a slice");
-   with two functions, or in the ideal machine, the functions arrive *)
-Theorem C16_variadic_single_function_refuted :
-  call false false 6 [TNum KI; TSlice TFunc] true [JNum (KI64, 1); JFun 1] = CV (GVStruct [GVI KI 1; GVSlice [GVNil]]) /\
-  call true true 6 [TNum KI; TSlice TFunc] true [JNum (KI64, 1); JFun 1] = CV (GVStruct [GVI KI 1; GVSlice [GVFunc]]) /\
+(* a function (or any non-list object) is never a slice -- repaired in 96bc623,
+   it used to become a slice of zero values -- so a single callback for a
+   variadic slot of func type arrives as that function, like two callbacks do *)
+Theorem C16_function_is_not_a_slice : forall ideal ids f n e,
+  conv ideal ids (S f) (JFun n) (TSlice e) = CE 6.
+Proof. exact function_is_not_a_slice. Qed.
+Print Assumptions C16_function_is_not_a_slice.
+
+Theorem C16_variadic_single_function :
+  call false false 6 [TNum KI; TSlice TFunc] true [JNum (KI64, 1); JFun 1] = CV (GVStruct [GVI KI 1; GVSlice [GVFunc]]) /\
   call false false 6 [TNum KI; TSlice TFunc] true [JNum (KI64, 1); JFun 1; JFun 1] =
     CV (GVStruct [GVI KI 1; GVSlice [GVFunc; GVFunc]]).
-Proof. exact variadic_single_function_refuted. Qed.
-Print Assumptions C16_variadic_single_function_refuted.
+Proof. exact variadic_single_function. Qed.
+Print Assumptions C16_variadic_single_function.
 
 (* non-vacuity of the implications above *)
 Example C16_exact_hyp_met :
@@ -379,5 +384,5 @@ Example C16_elementwise_hyp_met :
   call false false 4 [TNum KU8; TStr] false [JNum (KI64, 5); JStr [97]] = CV (GVStruct [GVI KU8 5; GVStr [97]]).
 Proof. vm_compute. split; reflexivity. Qed.
 Example C16_reentrant_example :
-  ev_call 4 (RCall 0 [RVal 1; RRe [RCall 0 [RVal 2; RVal 7]] 8]) = [(0, [2; 7]); (0, [1; 8])].
+  ev_call 4 (RCall 0 [RVal 1; RRe [RCall 0 [RVal 2; RVal 7]] 8]) = ([(0, [2; 7]); (0, [1; 8])], true).
 Proof. reflexivity. Qed.
